@@ -20,6 +20,7 @@ From Verif Require GuardsInputProofs.
 From Verif Require Import GuardsPlan EnginePlan GuardsPlanProofs.
 From Verif Require Import GuardsStorage GuardsStorageSem GuardsStorageProofs.
 From Verif Require Import GuardsHolder GuardsHolderSem GuardsHolderProofs.
+From Verif Require Import GuardsFormula GuardsFormulaSem GuardsFormulaProofs.
 Import ListNotations.
 Open Scope Z_scope.
 
@@ -263,6 +264,30 @@ Theorem source_put_in_cache : forall dns oo ne inb x v p a s,
   put_in_cache x v p a s = src_put_in_cache dns oo ne inb x v p a s.
 Proof. exact put_in_cache_is_source. Qed.
 Print Assumptions source_put_in_cache.
+
+(** ** Variable.get_formula (coq/gen/GuardsFormula.v, from variables/variable.py) *)
+
+Theorem source_formula_guard : forall has_formulas period_is_none instant_is_none has_end after_end,
+  gen_formula_guard has_formulas period_is_none instant_is_none has_end after_end
+  = if negb has_formulas then FNone else if period_is_none then FOldest
+    else if instant_is_none then FNone else if has_end && after_end then FNone else FScan.
+Proof. exact gen_formula_guard_table. Qed.
+Print Assumptions source_formula_guard.
+
+Theorem source_formula_scan : gen_formula_scan = ScanFirst ScanReversed CmpLe.
+Proof. exact gen_formula_scan_is_reversed_le. Qed.
+Print Assumptions source_formula_scan.
+
+(** ascending list, keep the last start date <= instant  =  reversed list, take the first *)
+Theorem latest_formula_is_reversed_scan : forall fs d acc,
+  latest_formula fs d acc
+  = match first_match CmpLe (rev fs) d with Some e => Some e | None => acc end.
+Proof. exact latest_is_first_of_reversed. Qed.
+Print Assumptions latest_formula_is_reversed_scan.
+
+Theorem source_formula_at : forall x p, formula_at x p = src_formula_at x p.
+Proof. exact formula_at_is_source. Qed.
+Print Assumptions source_formula_at.
 
 (** ** Non-vacuity: the regenerated guards do raise and do accept *)
 
